@@ -193,6 +193,10 @@ func (f *Frame) body(st State) {
 		f.fail("function %s has no body", fn.String())
 	}
 	f.loops = map[*ssa.BasicBlock]*loopInfo{}
+	// contract drift: the contract file states invariants for more loops than the function has (code was moved out of it)
+	if n := len(loopHeaders(fn)); un.eng.loopContract(fn, n+1) != nil {
+		f.fail("contract drift: invariants are declared for loop #%d of %s, which now has %d loop(s)", n+1, fn.String(), n)
+	}
 	for i, h := range loopHeaders(fn) {
 		li := &loopInfo{header: h, ordinal: i + 1, body: loopBody(h)}
 		if f.parent == nil || true {
